@@ -63,6 +63,8 @@ struct BusByte {
   bool gapBefore; // a silent gap longer than any receive timeout preceded this byte
   uint8_t hostWrote;  // for 'X': what the host had written
 };
+/** a symbol the host wrote that never made it onto the wire (swallowed by a collision or the adapter): no echo, nothing for the others */
+struct DroppedWrite { size_t pos; int64_t t; uint8_t b; };
 
 // ---- reference wire parser: the list of valid telegrams in a bus byte sequence --------------------------------------
 struct RefTelegram {
@@ -396,6 +398,13 @@ class Bus {
     bool afterSyn = !log.empty() && log.back().b == 0xAA;
     int64_t t = std::max(g.now, lastByteTime) + SYM;
     if (!enhanced && afterSyn && !hostOwnsBus && !awaitHostAnswer && b != 0xAA) {
+      if (arbWrites++ == dropArbWriteAt) {
+        // the address is swallowed: nothing on the wire, no echo; what the host gets to see next is the SYN of the generator, within its
+        // wait for the echo
+        dropped.push_back({log.size(), t, b});
+        emitSyn(t, false, 0);
+        return;
+      }
       // arbitration attempt: the echo is resolved together with a possibly colliding foreign master in pump()
       hostArbPending = true;
       log.push_back({t, echo, 'H', false, b});
@@ -596,6 +605,8 @@ class Bus {
       }
     }
   }
+  long arbWrites = 0, dropArbWriteAt = -1;      // which arbitration write of the host (plain device) is swallowed
+  std::vector<DroppedWrite> dropped;
   int strayAfterArbPct = 0;
   long strays = 0;
 
